@@ -112,7 +112,9 @@ pub fn run(text: &str, cases_path: &str, out: &mut impl Write) {
                 let zip = kv(&toks, "zip").unwrap().to_string();
                 let sandbox = base.join(&id);
                 let _ = std::fs::remove_dir_all(&sandbox);
-                let target_dir = sandbox.join("target");
+                // the target sits six levels below the listed sandbox so that entry names climbing out of it
+                // with up to ten ".." still land where the listing sees them
+                let target_dir = sandbox.join("o1/o2/o3/o4/o5/o6/target");
                 std::fs::create_dir_all(&target_dir).unwrap();
                 rt.block_on(async {
                     let paths = Paths::new_client(&target_dir);
